@@ -108,6 +108,7 @@ def check(ctx):
     R.check_cosort(ctx, w)
     check_cpm_denominator(ctx)
     check_cpm_formula(ctx)
+    check_chunking_ignores_gene_axis(ctx)
     # the non-negativity probe scans the whole matrix: its chunked loops
     # tile both axes exactly (shared with C05 / C16)
     from .C05 import check_tiles
@@ -712,3 +713,69 @@ def _ratio_through(t, atoms, P):
         return P._mul(a[0], b[1]), P._mul(a[1], b[0])
     t = P.strip_guard(t)
     return P.ratio(t, atoms)
+
+
+def check_chunking_ignores_gene_axis(
+        ctx, rule='R-PROV/chunking-independent-of-genes'):
+    """each chunk of query cells gets its own random stream, so which
+    cells share a chunk decides their bootstrap draws.  For the result to
+    be unchanged when non-marker genes are added or removed, the chunk
+    size handed to the row readers (and the one the mapping front end
+    derives) must not depend on the number of gene columns: the symbolic
+    value of every `row_chunk_size=` / `chunk_size=` argument in the row
+    iterator's constructor and in the mapping front end contains no
+    element 1 of a shape (`shape[1]`, `attrs['shape'][1]`) and no length
+    of a gene list."""
+    db = ctx.db
+    n = 0
+    targets = [
+        'anndata_iterator.anndata_iterator:AnnDataRowIterator.__init__',
+        'anndata_iterator.anndata_iterator:'
+        'AnnDataRowIterator._initialize_as_csc',
+        'type_assignment.election:run_type_assignment_on_h5ad_cpu']
+    for q in targets:
+        fi = db.fn(q)
+        ctx.touch(fi)
+        cfg = cfg_of(fi)
+        rd = rd_of(fi)
+        ex = Expander(fi)
+        for node in cfg.nodes:
+            if node.id not in rd.live:
+                continue
+            for c in cfg.calls_in(node):
+                for kw in c.keywords:
+                    if kw.arg not in ('row_chunk_size', 'chunk_size',
+                                      'rows_at_a_time'):
+                        continue
+                    t = ex.expand(kw.value, node.id)
+                    bad = None
+                    for x in T.subterms(t):
+                        if not (isinstance(x, tuple) and x):
+                            continue
+                        if x[0] == 'sub' and x[2] == ('const', '1'):
+                            base = x[1]
+                            if any(isinstance(y, tuple) and y and (
+                                    (y[0] == 'attr' and y[2] == 'shape')
+                                    or y == ('const', "'shape'"))
+                                    for y in T.subterms(base)):
+                                bad = x
+                        if x[0] == 'call' and T.call_name(x) == 'len' \
+                                and x[2] and any(
+                                    isinstance(y, tuple) and y
+                                    and y[0] == 'param' and 'gene' in y[1]
+                                    for y in T.subterms(x[2][0])):
+                            bad = x
+                    n += 1
+                    ok = bad is None
+                    ctx.ob(rule, f'{fi.qual}:{kw.arg}#{n - 1}', fi.loc(c),
+                           ok, f'`{kw.arg}` does not depend on the number '
+                           'of gene columns' if ok else
+                           f'`{kw.arg}={unparse(kw.value)[:30]}` in '
+                           f'`{unparse(c.func)}(...)` depends on '
+                           f'{fmt_term(bad)[:60]}, the number of gene '
+                           'columns: adding non-marker genes to the query '
+                           'moves the chunk boundaries, and with them the '
+                           'random stream every cell is mapped with')
+    if n < 4:
+        raise AnalysisError(f'only {n} chunk-size arguments found in the '
+                            'row readers')
